@@ -178,7 +178,7 @@ func (ex *Exec) applyContract(st *State, ct *Contract, f *types.Func, recv Val, 
 				accs = append(accs, Acc{Field: f})
 			}
 			oldV := ex.load(st, &RefV{Cell: x.Cell, Path: append(append([]Acc{}, x.Path...), accs...)}, call)
-			nv := ex.havocLike(st, oldV, nil, root+"."+strings.Join(fields, "."))
+			nv := ex.havocContents(st, oldV, root+"."+strings.Join(fields, "."))
 			ex.frameCheck(&RefV{Cell: x.Cell, Path: append(append([]Acc{}, x.Path...), accs...)}, true, call)
 			st.store[x.Cell] = ex.update(st.store[x.Cell], append(append([]Acc{}, x.Path...), accs...), nv)
 			if os, ok := oldV.(*SliceV); ok && os.Tag > 0 {
@@ -193,7 +193,7 @@ func (ex *Exec) applyContract(st *State, ct *Contract, f *types.Func, recv Val, 
 			for _, a := range accs {
 				cur = ex.access(st, cur, a, call)
 			}
-			nv := ex.havocLike(st, cur, nil, root+"."+strings.Join(fields, "."))
+			nv := ex.havocContents(st, cur, root+"."+strings.Join(fields, "."))
 			post[root] = ex.update(post[root], accs, nv)
 			switch os := cur.(type) {
 			case *SliceV:
